@@ -496,3 +496,40 @@ Example ex_persist_reload :
   reload 1700000100 (vdisk s) = [(1, Some 5); (2, Some 9)] /\
   reload 1700000101 (vdisk s) = [(2, Some 9)].
 Proof. vm_compute. auto 10. Qed.
+
+(* ============================================================================================ *)
+(* FileManager.save called directly                                                              *)
+
+Lemma direct_good_save_lands_l ff b v d :
+  let s := direct_save (ff, true) b v d 0 in
+  file s = Some (v, TFull) /\ temp s = None /\ busy s = false.
+Proof. destruct d, ff, b; vm_compute; auto. Qed.
+
+Lemma direct_failed_save_harmless_l ff b v d t :
+  t <> 0 ->
+  let s := direct_save (ff, true) b v d t in
+  file s = fst d /\ busy s = false /\
+  (temp s = Some (v, TEmpty) \/ temp s = Some (v, THalf)).
+Proof.
+  intros T. unfold direct_save. destruct (t =? 0) eqn:E0; [apply Z.eqb_eq in E0; contradiction|].
+  destruct (t =? 1); destruct d, ff, b; vm_compute; auto.
+Qed.
+
+Lemma frun_app c s a b : frun c s (a ++ b) = frun c (frun c s a) b.
+Proof. apply fold_left_app. Qed.
+
+Lemma fsave_later_good_save_lands_l ff ops i v :
+  let s := frun (ff, true) finit (ops ++ [FGood i v]) in
+  fbusy s = false /\ fst (if i =? 0 then fd0 s else fd1 s) = Some (v, TFull).
+Proof.
+  cbn zeta. rewrite frun_app. generalize (frun (ff, true) finit ops). intros s.
+  cbn [frun fold_left fstep fst].
+  destruct (direct_good_save_lands_l ff (fbusy s) v (if i =? 0 then fd0 s else fd1 s)) as (A & B & C).
+  cbn zeta in A, B, C. change (0 =? 0) with true. cbn [b2z].
+  destruct (i =? 0); cbn; rewrite ?A, ?C; auto.
+Qed.
+
+Example ex_fsave :
+  let s := frun (true, true) finit [FGood 0 1; FFail 0 2 1 2; FFail 1 3 2 1; FGood 1 4] in
+  fd0 s = (Some (1, TFull), Some (2, THalf)) /\ fd1 s = (Some (4, TFull), None) /\ fbusy s = false.
+Proof. vm_compute. auto. Qed.
